@@ -1,4 +1,5 @@
 """C19 — shot results to register bitstrings (model: coq/model/Shots.v, spec: coq/spec/ShotsS.v)."""
+import copy
 import re
 
 import fw
@@ -74,6 +75,258 @@ def rand_shot(rng, bad, nest=0.0, regs=None):
     return es
 
 
+# ---- observe-change-observe on ONE QsysResult object (kind "seq") --------------------------------------------
+# A case is {"kind": "seq", "raw": bool, "shots": [...], "steps": [step, ...]}; a step is a dict with "op":
+#   queries   qbits(i)  qstrings(sn, sl)  qcounts(sn, sl)  qcollate     ["scr": scribble on the returned object]
+#   mutators  append(i, e, via)  setentry(i, j, e)  setdata(i, j, d)  delentry(i, j, via)  insentry(i, j, e)
+#             setentries(i, es, via)  insshot(i, es, via)  delshot(i, via)  swap(i, j)
+# An index out of range makes the step a no-op (it is then left out of the Gallina literal as well).
+QUERIES = ("qbits", "qstrings", "qcounts", "qcollate")
+SEQ_REGS = ["a", "b", "a[0]", "a[2]", "b[1]", "c_1[0]", "c_1"]
+
+
+def rand_query(rng, nshots):
+    r = rng.random()
+    if r < 0.2:
+        q = {"op": "qbits", "i": rng.randrange(max(1, nshots))}
+    elif r < 0.55:
+        q = {"op": "qstrings", "sn": rng.random() < 0.5, "sl": rng.random() < 0.5}
+    elif r < 0.85:
+        q = {"op": "qcounts", "sn": rng.random() < 0.5, "sl": rng.random() < 0.5}
+    else:
+        q = {"op": "qcollate"}
+    return q
+
+
+def rand_entry(rng, regs, bad):
+    t = rng.choice(regs)
+    d = rand_data(rng, bad)
+    if re.match(r"^[a-z]\w*\[\d+\]$", t) and isinstance(d, list) and rng.random() < 0.9:
+        d = rand_prim(rng, bad)
+    return [t, d]
+
+
+def rand_mut(rng, st, regs, bad):
+    """One mutator step valid for the simulated state `st` (list of entry lists), which it updates (the simulation
+    only serves to choose indices in range; it is not part of what is checked)."""
+    n = len(st)
+    nonempty = [i for i in range(n) if st[i]]
+    r = rng.random()
+    if n and r < 0.3:
+        i = rng.randrange(n)
+        e = rand_entry(rng, regs, bad)
+        st[i] = st[i] + [e]
+        return {"op": "append", "i": i, "e": e, "via": rng.choice(["method", "method", "entries"])}
+    if nonempty and r < 0.4:
+        i = rng.choice(nonempty)
+        j = rng.randrange(len(st[i]))
+        e = rand_entry(rng, regs, bad)
+        st[i] = st[i][:j] + [e] + st[i][j + 1:]
+        return {"op": "setentry", "i": i, "j": j, "e": e}
+    if nonempty and r < 0.5:
+        i = rng.choice(nonempty)
+        j = rng.randrange(len(st[i]))
+        t, old = st[i][j]
+        if isinstance(old, list):
+            d = [rand_prim(rng, bad) for _ in range(rng.choice([len(old), len(old), len(old) + 1, max(0, len(old) - 1)]))]
+        else:
+            d = rand_prim(rng, bad)
+        st[i] = st[i][:j] + [[t, d]] + st[i][j + 1:]
+        return {"op": "setdata", "i": i, "j": j, "d": d}
+    if nonempty and r < 0.6:
+        i = rng.choice(nonempty)
+        j = rng.randrange(len(st[i]))
+        st[i] = st[i][:j] + st[i][j + 1:]
+        return {"op": "delentry", "i": i, "j": j, "via": rng.choice(["del", "pop"])}
+    if n and r < 0.67:
+        i = rng.randrange(n)
+        j = rng.randrange(len(st[i]) + 1)
+        e = rand_entry(rng, regs, bad)
+        st[i] = st[i][:j] + [e] + st[i][j:]
+        return {"op": "insentry", "i": i, "j": j, "e": e}
+    if n and r < 0.8:
+        i = rng.randrange(n)
+        es = rand_shot(rng, bad, regs=regs)
+        st[i] = es
+        return {"op": "setentries", "i": i, "es": es, "via": rng.choice(["attr", "slice", "newshot"])}
+    if n >= 2 and r < 0.87:
+        i, j = rng.sample(range(n), 2)
+        st[i], st[j] = st[j], st[i]
+        return {"op": "swap", "i": i, "j": j}
+    if n and r < 0.92:
+        i = rng.randrange(n)
+        del st[i]
+        return {"op": "delshot", "i": i, "via": rng.choice(["del", "attr"])}
+    i = rng.randrange(n + 1)
+    es = rand_shot(rng, bad, regs=regs)
+    st.insert(i, es)
+    return {"op": "insshot", "i": i, "es": es, "via": rng.choice(["insert", "attr"])}
+
+
+def rand_seq(rng):
+    regs = rng.sample(SEQ_REGS, rng.randint(1, 4))
+    bad = 0.0 if rng.random() < 0.7 else 0.04
+    base = rand_shot(rng, 0.0, regs=regs)
+    shots = []
+    for _ in range(rng.choice([1, 2, 2, 3, 3, 4])):
+        if rng.random() < 0.7:      # same shape: the strict queries succeed before the change
+            shots.append([[t, (rand_prim(rng, 0.0) if not isinstance(d, list) else [rand_prim(rng, 0.0) for _ in d])]
+                          for t, d in base])
+        else:
+            shots.append(rand_shot(rng, bad, regs=regs))
+    st = copy.deepcopy(shots)
+    focus = rand_query(rng, len(st))         # asked again and again, so that a remembered answer would be reused
+    steps = []
+    for _ in range(rng.randint(3, 9)):
+        if rng.random() < 0.5:
+            q = dict(focus) if rng.random() < 0.7 else rand_query(rng, len(st))
+            if rng.random() < 0.4:
+                q["scr"] = True
+            steps.append(q)
+        else:
+            steps.append(rand_mut(rng, st, regs, bad))
+    steps.append(dict(focus))
+    return {"kind": "seq", "raw": rng.random() < 0.15, "shots": shots, "steps": steps}
+
+
+def _tup(e):
+    return (e[0], copy.deepcopy(e[1]))
+
+
+def _scribble(op, ret):
+    """Edits the object a query returned (the caller owns it); later answers must not be affected."""
+    try:
+        if op == "qbits":
+            ret["__junk"] = "2"
+        elif op == "qstrings":
+            for l in list(ret.values()):
+                l.append("2")
+            ret["__junk"] = ["2"]
+        elif op == "qcounts":
+            for c in list(ret.values()):
+                c["2"] += 3
+            ret["__junk"] = type(next(iter(ret.values()), {}))()
+        elif op == "qcollate":
+            ret[(("__junk", "2"),)] += 2
+    except Exception:
+        pass
+
+
+def run_seq(case, guard):
+    """Executes the steps on one QsysResult built from case["shots"]; returns one item per step:
+    None (mutator applied), "skip" (index out of range: nothing done) or the canonicalised answer of the query."""
+    from hugr.qsystem.result import QsysShot, QsysResult
+    if case.get("raw"):
+        res = QsysResult([[_tup(e) for e in s] for s in case["shots"]])
+    else:
+        res = QsysResult([QsysShot([_tup(e) for e in s]) for s in case["shots"]])
+    out = []
+
+    def ask(call, canon):
+        box = []
+
+        def f():
+            box.append(call())
+            return canon(box[0])
+        return guard(f), box
+    for st in case["steps"]:
+        op = st["op"]
+        R = res.results
+        i = st.get("i")
+        if op in ("qstrings", "qcounts", "qcollate"):
+            if op == "qstrings":
+                o, box = ask(lambda: res.register_bitstrings(strict_names=st["sn"], strict_lengths=st["sl"]),
+                             lambda d: [[r, list(l)] for r, l in d.items()])
+            elif op == "qcounts":
+                o, box = ask(lambda: res.register_counts(strict_names=st["sn"], strict_lengths=st["sl"]),
+                             lambda d: [[r, sorted(c.items())] for r, c in d.items()])
+            else:
+                o, box = ask(lambda: res.collated_counts(),
+                             lambda d: [[[list(p) for p in tp], n] for tp, n in d.items()])
+            if st.get("scr") and box:
+                _scribble(op, box[0])
+            out.append(o)
+            continue
+        if op == "insshot":
+            if not 0 <= i <= len(R):
+                out.append("skip")
+                continue
+            new = QsysShot([_tup(e) for e in st["es"]])
+            if st.get("via") == "attr":
+                res.results = R[:i] + [new] + R[i:]
+            elif i == len(R):
+                R.append(new)
+            else:
+                R.insert(i, new)
+            out.append(None)
+            continue
+        if op == "swap":
+            j = st["j"]
+            if not (0 <= i < len(R) and 0 <= j < len(R)):
+                out.append("skip")
+                continue
+            R[i], R[j] = R[j], R[i]
+            out.append(None)
+            continue
+        if not 0 <= i < len(R):
+            out.append("skip")
+            continue
+        shot = R[i]
+        if op == "qbits":
+            o, box = ask(lambda: shot.to_register_bits(), lambda d: [[r, s] for r, s in d.items()])
+            if st.get("scr") and box:
+                _scribble(op, box[0])
+            out.append(o)
+            continue
+        E = shot.entries
+        if op == "delshot":
+            if st.get("via") == "attr":
+                res.results = R[:i] + R[i + 1:]
+            else:
+                del R[i]
+        elif op == "append":
+            if st.get("via") == "entries":
+                E.append(_tup(st["e"]))
+            else:
+                shot.append(st["e"][0], copy.deepcopy(st["e"][1]))
+        elif op == "setentries":
+            new = [_tup(e) for e in st["es"]]
+            if st.get("via") == "slice":
+                E[:] = new
+            elif st.get("via") == "newshot":
+                R[i] = QsysShot(new)
+            else:
+                shot.entries = new
+        elif op == "insentry":
+            if not 0 <= st["j"] <= len(E):
+                out.append("skip")
+                continue
+            E.insert(st["j"], _tup(st["e"]))
+        else:
+            j = st["j"]
+            if not 0 <= j < len(E):
+                out.append("skip")
+                continue
+            if op == "setentry":
+                E[j] = _tup(st["e"])
+            elif op == "setdata":
+                old = E[j][1]
+                if isinstance(old, list) and isinstance(st["d"], list):
+                    old[:] = copy.deepcopy(st["d"])          # the list value is edited in place
+                else:
+                    E[j] = (E[j][0], copy.deepcopy(st["d"]))
+            elif op == "delentry":
+                if st.get("via") == "pop":
+                    E.pop(j)
+                else:
+                    del E[j]
+            else:
+                raise AssertionError(op)
+        out.append(None)
+    return out
+
+
+
 class C19(fw.Prop):
     id = "C19"
     props_file = "props/C19.v"
@@ -84,8 +337,12 @@ class C19(fw.Prop):
             "to the same register interleave), values = ints 0/1, bools, non-bits (2, -1, floats), flat and "
             "nested lists; tags include non-matching look-alikes (upper-case start, trailing text, empty "
             "index, leading zeros, random printable ASCII); multi-shot results x 4 strictness flag "
-            "combinations; collated counts with nested lists.  non-trivial = a register receives >=2 writes "
-            "of which one is indexed, or a value is rejected, or (multi) shots differ in registers/lengths")
+            "combinations; collated counts with nested lists; sequences on ONE QsysResult object: queries "
+            "(to_register_bits of a shot, register_bitstrings / register_counts with any flags, collated_counts, "
+            "optionally editing the returned object) interleaved with every public way of changing it (shot.append, "
+            "editing / replacing shot.entries, editing a list value in place, inserting / replacing / deleting / "
+            "swapping shots), one query repeated throughout.  non-trivial = a register receives >=2 writes "
+            "of which one is indexed, or a value is rejected, or (multi) shots differ in registers/lengths, or (sequence) a query is repeated after a change")
     trusted = ["tag alphabet is printable ASCII (Python's \\w, \\d are Unicode aware and '$' also matches "
                "before a trailing newline: such tags are outside the model and the generator)",
                "Counter objects are observed through their items()"]
@@ -117,6 +374,9 @@ class C19(fw.Prop):
             regs = rng.sample(NAMES[:5] + ["a[0]"], rng.randint(1, 3))
             shots = [rand_shot(rng, 0.03, nest=0.4, regs=regs) for _ in range(rng.randint(0, 4))]
             cases.append({"kind": "collate", "shots": shots})
+        # observe - change - observe on one object (appended last: the streams above are unchanged)
+        for _ in range(400 * k):
+            cases.append(rand_seq(rng))
         return cases
 
     def corpus(self, ctx):
@@ -129,7 +389,32 @@ class C19(fw.Prop):
             {"kind": "multi", "sn": True, "sl": False, "shots": [[], [["a", 1]]]},
             {"kind": "multi", "sn": False, "sl": True, "shots": [[["a", [1, 0]]], [["b", 1]], [["a", 1]]]},
             {"kind": "bits", "entries": [["e", []], ["e[2]", 1]]},
+            {"kind": "collate", "shots": [[["a[0]", True], ["zz9", 1]], [["zz9", 1], ["a[0]", 1]]]},   # same pairs, other tag order: two Counter keys
             {"kind": "collate", "shots": [[["a", [[0, 1], [1]]], ["a", 1]]]},
+            # one object asked twice with a shot changed in between (seeded C19-h: answers remembered per flags and
+            # number of shots): stale strings / counts, and a strictness violation introduced by the change
+            {"kind": "seq", "raw": False, "shots": [[["c", [1, 0]]], [["c", [0, 0]]]], "steps": [
+                {"op": "qstrings", "sn": False, "sl": False},
+                {"op": "append", "i": 1, "e": ["c", [1, 1]], "via": "method"},
+                {"op": "qstrings", "sn": False, "sl": False}]},
+            {"kind": "seq", "raw": False, "shots": [[["d[1]", 1]], [["d[1]", 0]]], "steps": [
+                {"op": "qcounts", "sn": True, "sl": True},
+                {"op": "append", "i": 1, "e": ["d[2]", 1], "via": "method"},
+                {"op": "qcounts", "sn": True, "sl": True},
+                {"op": "append", "i": 0, "e": ["e", 1], "via": "entries"},
+                {"op": "setentries", "i": 1, "es": [["d[1]", 1]], "via": "attr"},
+                {"op": "qstrings", "sn": True, "sl": True}]},
+            {"kind": "seq", "raw": True, "shots": [[["a", [0, 1]], ["b", 2]], [["a", [1, 1]]]], "steps": [
+                {"op": "qstrings", "sn": False, "sl": False, "scr": True},
+                {"op": "qcollate", "scr": True},
+                {"op": "delentry", "i": 0, "j": 1, "via": "del"},
+                {"op": "qstrings", "sn": False, "sl": False, "scr": True},
+                {"op": "setdata", "i": 0, "j": 0, "d": [1, 1, 1]},
+                {"op": "swap", "i": 0, "j": 1},
+                {"op": "qstrings", "sn": False, "sl": False},
+                {"op": "qbits", "i": 1, "scr": True},
+                {"op": "qbits", "i": 1},
+                {"op": "qcollate"}]},
         ]
 
     def observe(self, case, ctx):
@@ -156,6 +441,8 @@ class C19(fw.Prop):
         if k == "collate":
             res = QsysResult([QsysShot([tuple(e) for e in s]) for s in case["shots"]])
             return guard(lambda: [[[list(p) for p in tp], n] for tp, n in res.collated_counts().items()])
+        if k == "seq":
+            return run_seq(case, guard)
         raise AssertionError(k)
 
     def literal(self, case, obs, ctx):
@@ -179,6 +466,55 @@ class C19(fw.Prop):
             r = gres(obs, lambda l: glist(gpair(glist(gpair(gtag(t), gs(s)) for t, s in tp), gnat(n)) for tp, n in l)) \
                 or "(Ok [([([(-1)%Z], [])], 1%nat)])"
             return gapp("CCollate", glist(gentries(s) for s in case["shots"]), r)
+        if k == "seq":
+            ge = lambda e: gpair(gtag(e[0]), gdata(e[1]))
+            steps = []
+            for st, o in zip(case["steps"], obs):
+                op = st["op"]
+                if o == "skip":
+                    continue
+                if op == "qbits":
+                    r = gres(o, lambda l: glist(gpair(gtag(t), gs(s)) for t, s in l)) or "(" + SENTINEL + ")"
+                    q = gapp("QBits", gnat(st["i"]), r)
+                elif op == "qstrings":
+                    r = gres(o, lambda l: glist(gpair(gtag(t), glist(gs(s) for s in ss)) for t, ss in l)) or "(" + SENTINEL + ")"
+                    q = gapp("QStrings", gbool(st["sn"]), gbool(st["sl"]), r)
+                elif op == "qcounts":
+                    r = gres(o, lambda l: glist(gpair(gtag(t), glist(gpair(gs(s), gnat(n)) for s, n in cs)) for t, cs in l)) \
+                        or "(" + SENTINEL + ")"
+                    q = gapp("QCounts", gbool(st["sn"]), gbool(st["sl"]), r)
+                elif op == "qcollate":
+                    r = gres(o, lambda l: glist(gpair(glist(gpair(gtag(t), gs(s)) for t, s in tp), gnat(n)) for tp, n in l)) \
+                        or "(Ok [([([(-1)%Z], [])], 1%nat)])"
+                    q = gapp("QCollate", r)
+                else:
+                    q = None
+                if q is not None:
+                    steps.append(gapp("SQuery", q))
+                    continue
+                i = gnat(st["i"])
+                if op == "append":
+                    m = gapp("MAppend", i, ge(st["e"]))
+                elif op == "setentry":
+                    m = gapp("MSetEntry", i, gnat(st["j"]), ge(st["e"]))
+                elif op == "setdata":
+                    m = gapp("MSetData", i, gnat(st["j"]), gdata(st["d"]))
+                elif op == "delentry":
+                    m = gapp("MDelEntry", i, gnat(st["j"]))
+                elif op == "insentry":
+                    m = gapp("MInsEntry", i, gnat(st["j"]), ge(st["e"]))
+                elif op == "setentries":
+                    m = gapp("MSetEntries", i, gentries(st["es"]))
+                elif op == "insshot":
+                    m = gapp("MInsShot", i, gentries(st["es"]))
+                elif op == "delshot":
+                    m = gapp("MDelShot", i)
+                elif op == "swap":
+                    m = gapp("MSwap", i, gnat(st["j"]))
+                else:
+                    raise AssertionError(op)
+                steps.append(gapp("SMut", m))
+            return gapp("CSeq", glist(gentries(s) for s in case["shots"]), glist(steps))
 
     def nontrivial(self, case, obs):
         k = case["kind"]
@@ -195,6 +531,18 @@ class C19(fw.Prop):
             return any(len(v) >= 2 and any(v) for v in seen.values())
         if k == "multi":
             return len(case["shots"]) >= 2
+        if k == "seq":
+            # some query is repeated (same question) after an effective change of the object
+            asked, changed = set(), set()
+            for st, o in zip(case["steps"], obs):
+                if st["op"] in QUERIES:
+                    key = (st["op"], st.get("i"), st.get("sn"), st.get("sl"))
+                    if key in changed:
+                        return True
+                    asked.add(key)
+                elif o != "skip":
+                    changed |= asked
+            return False
         return any(len(s) >= 2 for s in case["shots"])
 
     def signature(self, case, obs, ctx):
@@ -217,6 +565,18 @@ class C19(fw.Prop):
             es = case["entries"]
             for i in range(len(es)):
                 yield {**case, "entries": es[:i] + es[i + 1:]}
+        elif k == "seq":
+            stp, sh = case["steps"], case["shots"]
+            for i in range(len(stp)):
+                yield {**case, "steps": stp[:i] + stp[i + 1:]}
+            for i in range(len(stp)):
+                if stp[i].get("scr"):
+                    yield {**case, "steps": stp[:i] + [{a: b for a, b in stp[i].items() if a != "scr"}] + stp[i + 1:]}
+            for i in range(len(sh)):
+                for j in range(len(sh[i])):
+                    yield {**case, "shots": sh[:i] + [sh[i][:j] + sh[i][j + 1:]] + sh[i + 1:]}
+            if case.get("raw"):
+                yield {**case, "raw": False}
         elif k in ("multi", "collate"):
             sh = case["shots"]
             for i in range(len(sh)):
@@ -231,6 +591,19 @@ class C19(fw.Prop):
             k = c["kind"]
             d.setdefault(k, {"n": 0, "value_errors": 0})
             d[k]["n"] += 1
+            if k == "seq":
+                d[k].setdefault("queries", 0)
+                d[k].setdefault("mutations", 0)
+                for st, so in zip(c["steps"], o):
+                    if st["op"] in QUERIES:
+                        d[k]["queries"] += 1
+                        if so == ["ValueError"]:
+                            d[k]["value_errors"] += 1
+                    elif so != "skip":
+                        d[k]["mutations"] += 1
+                        d[k].setdefault("by_mutator", {})
+                        d[k]["by_mutator"][st["op"]] = d[k]["by_mutator"].get(st["op"], 0) + 1
+                continue
             oo = o[0] if k == "multi" else o
             if isinstance(oo, list) and oo and oo[0] == "ValueError":
                 d[k]["value_errors"] += 1
